@@ -256,6 +256,9 @@ def r6_flushed_before_success(ctx):
 def run(ctx):
     from . import effects
     effects.check_property(ctx, "C04")    # R04.E: no operation on shared protocol state outside the reviewed table
+    from . import C01 as _C01d, C06 as _C06d
+    _C01d.r3_r4_recv_buffer(ctx)    # a padding frame of any legal size (up to 7 + 65535 bytes) is assembled and consumed: nothing caps the receive buffer below that
+    _C06d.r3_exact_skip(ctx)        # the server skips exactly the padding0 that was announced (read_exact of that many bytes): leftover zeros would sit in front of the first frame
     from . import C03 as _C03d, C05 as _C05d, C09 as _C09d
     _C03d.r3_totality(ctx)           # the decoder is total: no frame the peer may legally send (any command byte, any declared length) makes it return an error
     _C05d.r6_padding0(ctx)          # the preamble announces exactly the padding it then sends (the drawn size clamped into 0..65535 on both uses): the server skips what was announced
